@@ -21,7 +21,7 @@ ASSUMPTIONS = [
     "at least one targeted contig is canonically named (the premise of the statement's contig rule); zero-width targets are not passed to antitarget (target drops them first)",
     "without an access table the accessible space is [150000, end of the chromosome's last target row), as documented",
 ]
-BUDGET_S = {"quick": 200, "thorough": 1200}
+BUDGET_S = {"quick": 600, "thorough": 2400}
 
 
 def setup(run):
